@@ -709,6 +709,57 @@ pub fn through_decoder(prop: &str, rep: &mut Report, cube: &Cube, focus: &[KeyCo
         }
         rep.count("presses_judged_after_every_count_of_changes_(forked_object)", steps);
     }
+    // one remembered look-up, then 1..n change_layout calls, and after every one of them every key under a modifier set
+    // (on throw-away duplicates): a stamp that mixes a generation count into a digest of the input lets a different
+    // input match some generations later
+    {
+        use crate::forks::*;
+        let n: u64 = if light() { 1 << 8 } else if rep.thorough() { 1 << 21 } else { 1 << 17 };
+        let all_momentary = B_LSHIFT | B_RSHIFT | B_LCTRL | B_RCTRL | B_LALT | B_RALT | B_RCTRL2;
+        let mut rng = Rng::fork(rep.seed, 0x6c61_7964);
+        let mod_sets: Vec<u16> = vec![0, all_momentary, all_momentary | B_CAPSLOCK, B_LSHIFT, B_RCTRL, B_RALT, (rng.next() % 512) as u16, (rng.next() % 512) as u16];
+        let firsts: [(KeyCode, bool); 3] = [(KeyCode::Numpad0, true), (focus[(rep.seed as usize) % focus.len()], false), (KeyCode::A, false)];
+        let a = (rep.seed as usize) % 10;
+        let b = (a + 1 + (rep.seed as usize / 10) % 9) % 10;
+        let mut handles = Vec::new();
+        for (first, off) in firsts {
+            for m in mod_sets.iter().copied() {
+                for mode in 0..2usize {
+                    let keys = all.clone();
+                    handles.push((first, off, m, mode, std::thread::spawn(move || guarded(|| layout_distance_probe(a, b, first, off, m, mode, &keys, n)))));
+                }
+            }
+        }
+        let mut probes = 0u64;
+        for (first, off, m, mode, h) in handles {
+            let Ok(Ok(obs)) = h.join() else {
+                rep.count("via_decoder_histories_aborted_by_a_panic", 1);
+                continue;
+            };
+            probes += n * all.len() as u64;
+            let m = if off { m & !B_NUMLOCK } else { m | B_NUMLOCK };
+            for (li, ki, got, d) in obs {
+                presses += 1;
+                if li >= cube.n_layouts {
+                    continue;
+                }
+                let key = all[ki];
+                let Some(cki) = cube.key_index(key) else { continue };
+                if let Some(want) = judge(cube, acc, li, key, cki, m, mode, got, &mut judged) {
+                    let gs = if got == ENC_NONE { "None".to_string() } else { cube.show(got) };
+                    rep.violate(
+                        format!("{}|via-decoder|{}|key={:?}|want={}|got={}", prop, layout_name(li), key, want, gs),
+                        format!(
+                            "EventDecoder<AnyLayout>: {:?} typed{} on {}, then {} change_layout calls (ending on {}), modifiers {} pressed: the press of {:?} (Ctrl mode {}) typed {}; the property requires {}",
+                            first, if off { " with NumLock off" } else { "" }, layout_name(a), d, layout_name(li), mods_str(m), key, mode_str(MODES[mode]), gs, want
+                        ),
+                        J::obj().with("kind", J::s("layout-distance")).with("first", J::s(kname(first))).with("changes", J::u(d)).with("layout", J::s(layout_name(li))).with("key", J::s(kname(key))).with("mods", J::s(mods_str(m))),
+                    );
+                }
+            }
+        }
+        rep.count("presses_on_duplicates_after_every_number_of_change_layout_calls", probes);
+    }
     // other keys held in the background: a modifier context, every other key Y pressed and kept down, a third key tapped
     // (and in a second form Y released again), then the focus key – bookkeeping about which keys are down (a bitmap, a
     // list, "nothing held any more" recoveries) must not reach what the focus key types
